@@ -12,6 +12,7 @@ func base(prop string) *Profile {
 		WCreate: 3, WInsert: 40, WUpdate: 14, WDelete: 14, WSelect: 6, WRestart: 2, WFail: 4,
 		Values: "mixed", CacheCaps: []int{0, 0, 16, 24, 48, 128}, TickModes: allTicks, StallP: 0.05,
 		ContStmts: [2]int{4, 14}, MaxDepth: 3, NestP: 0.3, FinalClose: 0.3, CheckEvery: 1,
+		FailAnyK: true,
 	}
 }
 
@@ -182,7 +183,6 @@ func ProfileFor(prop, tier string, seed uint64) *Profile {
 		}
 	case "C14":
 		pf.WFail = 30
-		pf.FailAnyK = v%2 == 1 // half of the runs avoid the trigger of the open finding and are strict everywhere
 		pf.WRestart = 6
 		pf.Boundary = 3
 		pf.Stmts = [2]int{10, 40}
